@@ -36,23 +36,32 @@ THEOREMS = ['C14_squeeze_closed_form', 'C14_content_layout',
 TRUSTED = [
     'hand-written model coq/C14/Model.v (modelled, tied by execution only); '
     'regexes re-implemented as scanners: tied exhaustively on short strings '
-    'over small alphabets and on generated decks, not proved equivalent',
+    'over small alphabets, on all short line sequences and on generated decks, '
+    'not proved equivalent to the regexes',
     'Python str.split/splitlines/lower and the regex class \\s are modelled on '
     'ASCII only',
-    'everything after Card.content()/split: geometry parser, float(), '
-    'expand_data_card, normalize_float are NOT modelled here; their '
-    'formatting invariance is checked by the sweep only',
+    'everything after Card.content()/split and the option tokens: geometry '
+    'parser, float(), expand_data_card (nR nI nM nJ), normalize_float are NOT '
+    'modelled here; their formatting invariance is checked by the sweep only',
+    'fingerprints (polynomial hashes mod 2^31-1 on both sides) stand for '
+    'equality of the enumerated outputs',
     'harness: deck generator, layout renderer, impl.T4File reader, PEG shim '
     'replacing TatSu',
 ]
 ASSUMPTIONS = [
-    'ASCII decks, read in text mode (no \\r reaches the front end)',
+    'ASCII decks, read in text mode (no \\r reaches the front end; CRLF is in '
+    'the sweep corpus only)',
     'content-level functions (splits, option tokens) are modelled on strings '
-    'without line breaks; Card.content never returns one (C14_content_squeezed)',
+    'without line breaks, which is what Card.content returns',
     'cell_split: float(t2)==0 is modelled for digit-only material numbers; '
     'other spellings make the model abstain (EUnsupported)',
-    'tokens of the layout theorems contain no blank, "$" or "&", and a line '
-    'never starts with a lone "c" token inside columns 1-5',
+    'layout theorems: tokens contain no blank, "$" or "&"; the first token of '
+    'a line is not a lone "c"/"C"; a card starts with fewer than 5 blank '
+    'columns on a line not preceded by an "&" continuation; title and block '
+    'lines are non-blank and hold no \\r/\\n; before the options no blank or ")" '
+    'is directly followed by a letter or "*" (opt_free)',
+    'only get_cards(skipcomments=True) is modelled (the only mode the '
+    'converter uses)',
 ]
 HEADER = ('From Coq Require Import List NArith ZArith Bool String Ascii Uint63.\n'
           'From T4V Require Import Base.Str C14.Model C14.Exec.\n'
@@ -662,13 +671,13 @@ def run_all(res, tier, seed):
     rng = random.Random(seed)
     res.rule = ('(a) every string up to a length over small alphabets for each '
                 're-implemented regex/str method; (b) all line sequences from '
-                'a 14-line alphabet; (c) abstract decks (cells with unions, '
+                'a 15-line alphabet; (c) abstract decks (cells with unions, '
                 'complements, universes/FILL, TRCL, LIKE BUT, lattices, surfaces '
                 'with TR and boundary marks, TR/M/IMP data cards) rendered '
                 'canonically and under random layouts (case, blanks, tabs, '
                 'continuation by 5+ blanks or &, c-comment lines, $ trailers, '
-                'message block, blank-line runs, IMP/FILL shorthand, number '
-                'spellings) + malformed texts; non-trivial = text differs from '
+                'message block, blank-line runs, dropped "=", IMP/FILL shorthand, '
+                'number spellings) + malformed texts + a fixed corpus; non-trivial = text differs from '
                 'the canonical rendering / >= 2 lines')
     run_witnesses(res)
     run_corpus(res)
